@@ -82,6 +82,51 @@ TRUSTED TABLES (all in section 3 of this file; nothing else is assumed)
      source, which is translated like any other function (from_bool_src, from_f32_src, from_Vec2_src, from_Vec3_src).
   5. Names: Rust local x -> x' ; T::f -> f_src (events_new_src, tracker_state_src, tracker_value_src for the
      three that would clash); flags -> ActionEvents_<NAME>_src.
+
+SECOND WAVE (same rules).  Additional outputs:
+        <out>/DataSrc.v    src/input_context/context_instance.rs: struct ActionData (mapped to the model record `data`;
+                           the fn-pointer field is not modelled), ActionData::{update, state}
+        <out>/CondSrc.v    src/input_context/input_condition/: condition_timer.rs (ConditionTimer::{update, reset,
+                           duration}) and `evaluate` (+ `kind` where overridden) of press, just_press, release, hold,
+                           hold_and_release, tap, pulse, chord, block_by
+        <out>/GlamTbl2.v   fixed text: second part of the trusted glam table
+        <out>/ModifSrc.v   src/input_context/input_modifier/: `apply` of scale, delta_scale, accumulate_by, dead_zone
+                           (+ DeadZone::dead_zone, enum DeadZoneKind)
+     NOT translated yet (rs2v.py reports them unsupported if asked): negate.rs, swizzle_axis.rs, delta_lerp.rs
+     (self-recursive call on the converted Bool input; or-patterns; `if let` on an enum), exponential_curve.rs
+     (free function, powf / copysign).
+  Ties: coq/Proofs/SrcTie2P.v.
+  Additions to the subset
+     - structs WITHOUT a model record (ConditionTimer, Press, .., Scale, DeadZone, ..): a Gallina Record
+       `<T>_src := mk_<T>_src { <T>_<field> : .. }` and one setter per field are GENERATED from the parsed declaration;
+       generic structs `struct T<A: Bound>` and unit structs; fields of type PhantomData<..> / fn(..) are dropped
+     - `impl [<A: Bound>] Trait for T[<A>]` for the traits InputCondition and InputModifier
+     - `&mut self` methods WITH a result: the Gallina function returns (new self, result); every exit
+       (tail expression, `return e`) is paired with the self of that program point
+     - statements `place.m(args);` for a translated `&mut self` method m returning (); places `x`, `*x`, `place.field`
+       (nested, e.g. self.timer.duration), `v.x = e` on a `mut` Vec2 / Vec3
+     - `if let Some(x) = e { .. } else { .. }` on an Option (as statement, value, or with early `return`)
+     - `T::Variant { f: e }` expressions; tuples of 2 / 3 f32 as arguments of `.into()`; `e as f32` from u32;
+       u32 with literals, == != < <= > >= + * (typed from the context)
+     - a block used as a VALUE in the middle of a function must not assign outer variables (reported), because the
+       assignment would be lost in the functional form
+  Additions to the trusted tables
+     6. u32 is modelled by Z (no overflow / wrap-around); `n as f32` = inject_Z n.
+     7. Float literals denote the nearest f32 (0.5, 1.0 exactly; 1e-4 = 13743895 / 137438953472), as a rational.
+     8. Opaque parameters.  `&Time<Virtual>`: `delta_secs()` and `relative_speed()` become parameters dt' speed' : Q of
+        the translated function, in the place of the time parameter (only those used; passed on in calls).
+        `&ActionsData`: `actions.action::<A>()` with A a type parameter of the impl becomes the parameter
+        lookup' : option data (the ActionData currently stored for A, if any); no other use is supported.
+        Parameters of these types that are not used are dropped.  `impl Into<T>` parameters are modelled as the
+        already converted T.  warn! / warn_once! are skipped like trace!.
+     9. ActionData -> model record `data` (state, events, value, elapsed_secs, fired_secs -> d_state, d_events,
+        d_value, d_elapsed, d_fired); DeadZoneKind -> dzkind (Radial, Axial); SwizzleAxis -> swz.
+    10. glam, part 2 (text of GlamTbl2.v): Vec * Vec component-wise; f32::max / min = qmax / qmin (Model/Num.v);
+        f32::signum x = if x < 0 then -1 else 1 (no -0.0 / NaN); swizzles yx, yxz, zyx, xzy, yzx, zxy;
+        (f32, f32) -> Vec2 and (f32, f32, f32) -> Vec3 via into() = identity; `v.x = e` component update;
+        length(v) = sqrt(length_squared v) and normalize_or_zero(v) = if length v == 0 then ZERO else v / length v,
+        where sqrt is NOT defined by the table: a function using them gets an extra first parameter
+        sqrt' : Q -> Q (the tie instantiates it with the model's qsqrt).
 """
 import sys, os, argparse
 from fractions import Fraction
@@ -368,6 +413,25 @@ class Parser(object):
             if self.at('('):
                 self.skip_balanced()
 
+    def generics(self):
+        """at `<`: parse  <A: Bound + .., B>  -> list of parameter names"""
+        self.expect('<')
+        names = []
+        while not self.at('>'):
+            if self.peek().kind == 'life':
+                self.fail("lifetime parameter")
+            if self.at('const'):
+                self.fail("const generic parameter")
+            names.append(self.ident())
+            if self.eat(':'):
+                self.type_()
+            if self.at('='):
+                self.fail("default type parameter")
+            if not self.eat(','):
+                break
+        self.close_angle()
+        return names
+
     # ---- types (canonical strings)
     def close_angle(self):
         t = self.peek()
@@ -588,10 +652,19 @@ class Parser(object):
                 if m.kind == 'id' and m.text == 'await':
                     self.fail("`.await`", m.line)
                 if m.kind == 'id':
+                    targs = []
                     if self.at('::'):
-                        self.fail("turbofish method call", m.line)
+                        self.next()
+                        self.expect('<')
+                        while not (self.at('>') or self.at('>>')):
+                            targs.append(self.type_())
+                            if not self.eat(','):
+                                break
+                        self.close_angle()
+                        if not self.at('('):
+                            self.fail("turbofish without a call", m.line)
                     if self.at('('):
-                        e = Node('Method', m.line, recv=e, name=m.text, args=self.args())
+                        e = Node('Method', m.line, recv=e, name=m.text, args=self.args(), targs=targs)
                     else:
                         e = Node('Field', m.line, recv=e, name=m.text)
                 elif m.kind in ('int', 'float'):
@@ -708,9 +781,14 @@ class Parser(object):
 
     def if_(self):
         line = self.next().line   # if
+        pat = None
         if self.at('let'):
-            self.fail("`if let`")
+            self.next()
+            pat = self.pattern()
+            self.expect('=')
         cond = self.expr(no_struct=True)
+        if self.at('&&') or self.at('||'):
+            self.fail("let-chain")
         then = self.block()
         els = None
         if self.eat('else'):
@@ -718,6 +796,8 @@ class Parser(object):
                 els = self.if_()
             else:
                 els = self.block()
+        if pat is not None:
+            return Node('IfLet', line, pat=pat, scrut=cond, then=then, els=els)
         return Node('If', line, cond=cond, then=then, els=els)
 
     def match_(self):
@@ -804,7 +884,7 @@ class Parser(object):
             if self.at('}'):
                 tail = e
                 break
-            if e.k in ('If', 'Match', 'Block'):
+            if e.k in ('If', 'IfLet', 'Match', 'Block'):
                 stmts.append(Node('Expr', sl, expr=e))
                 continue
             self.fail("expected `;` or `}`, found `%s`" % t.text)
@@ -926,7 +1006,9 @@ class Parser(object):
         return out
 
     def struct_body(self):
-        """at `{` of a struct: list of (field, type, line)"""
+        """at `{` of a struct: list of (field, type, line); at `;` (unit struct): no fields"""
+        if self.at(';'):
+            return []
         self.expect('{')
         out = []
         while not self.at('}'):
@@ -968,9 +1050,16 @@ def scan_items(toks, file):
         if t.text == 'struct' and p.peek(1).kind == 'id':
             p.next()
             name = p.ident()
+            generics = []
+            if p.at('<'):
+                generics = p.generics()
             if p.at('{'):
-                items.append(Node('Item', line, kind='struct', name=name, attrs=attrs, pos=p.pos))
+                items.append(Node('Item', line, kind='struct', name=name, attrs=attrs, pos=p.pos, generics=generics))
                 p.skip_balanced()
+                continue
+            if p.at(';'):
+                items.append(Node('Item', line, kind='struct', name=name, attrs=attrs, pos=p.pos, generics=generics))
+                p.next()
                 continue
             items.append(Node('Item', line, kind='other', name=name, attrs=attrs, pos=p.pos))
         elif t.text == 'impl':
@@ -981,8 +1070,22 @@ def scan_items(toks, file):
                     p.fail("malformed impl")
                 p.next()
             header = [x.text for x in toks[hs:p.pos]]
-            items.append(Node('Item', line, kind='impl', name=' '.join(header), attrs=attrs, pos=p.pos,
-                              header=header))
+            it = Node('Item', line, kind='impl', name=' '.join(header), attrs=attrs, pos=p.pos,
+                      header=header, generics=[], trait=None, ty=None)
+            try:                                    # impl [<G>] [Trait for] Type[<G>]
+                q = Parser(toks, file, hs)
+                if q.at('<'):
+                    it.generics = q.generics()
+                t1 = q.type_()
+                if q.eat('for'):
+                    it.trait, it.ty = t1, q.type_()
+                else:
+                    it.ty = t1
+                if q.pos != p.pos:
+                    it.ty = None                    # where clause etc.: not usable
+            except Unsupported:
+                it.ty = None
+            items.append(it)
             p.skip_balanced()
             continue
         elif p.peek(1).kind == 'p' and p.peek(1).text == '!' and p.peek(2).kind == 'p' and p.peek(2).text in OPEN:
@@ -1064,7 +1167,23 @@ RECORD_MAP = {
 # methods of trait objects that are abstracted into parameters of a loop-step function
 TRAIT_METHODS = {'dyn InputCondition': [('kind', 'ConditionKind'), ('evaluate', 'ActionState')]}
 # macros whose invocations are skipped (logging only)
-SKIPPED_MACROS = ['trace', 'debug', 'info']
+SKIPPED_MACROS = ['trace', 'debug', 'info', 'warn', 'warn_once']
+# --- second wave ---
+COQ_TYPE['u32'] = 'Z'                        # unsigned integers: Z, overflow not modelled
+COQ_TYPE['Option<ActionData>'] = 'option data'
+RECORD_MAP['ActionData'] = ('data', {
+    'state': ('d_state', 'ActionState'), 'events': ('d_events', 'ActionEvents'), 'value': ('d_value', 'ActionValue'),
+    'elapsed_secs': ('d_elapsed', 'f32'), 'fired_secs': ('d_fired', 'f32')})
+# struct fields that are not modelled at all (never read or written by translated code)
+def ignored_field(ty):
+    return ty.startswith('fn(') or ty.startswith('PhantomData<')
+TRANSLATED_TRAITS = ['InputCondition', 'InputModifier']
+# opaque parameter types: `&Time<Virtual>`: each method used becomes a parameter of type Q (in this order)
+TIME_TYPE = 'Time<Virtual>'
+TIME_METHODS = [('delta_secs', "dt'"), ('relative_speed', "speed'")]
+# `&ActionsData`: `actions.action::<A>()` (A a type parameter of the impl) becomes the parameter lookup'
+ACTIONS_TYPE = 'ActionsData'
+LOOKUP_RESULT = 'Option<ActionData>'
 
 # glam / core meanings --------------------------------------------------------------
 GLAM_CONSTS = {
@@ -1107,6 +1226,12 @@ for _v, _l in (('Vec2', 'vec2'), ('Vec3', 'vec3')):
     BINOP[('+', _v, _v)] = ('Glam.%s_add {a} {b}' % _l, _v)
     BINOP[('==', _v, _v)] = ('Glam.%s_eq {a} {b}' % _l, 'bool')
     BINOP[('!=', _v, _v)] = ('Glam.%s_ne {a} {b}' % _l, 'bool')
+for _op, _f in (('==', 'Z.eqb {a} {b}'), ('!=', 'negb (Z.eqb {a} {b})'), ('<', 'Z.ltb {a} {b}'),
+                ('<=', 'Z.leb {a} {b}'), ('>', 'Z.ltb {b} {a}'), ('>=', 'Z.leb {b} {a}')):
+    BINOP[(_op, 'u32', 'u32')] = (_f, 'bool')
+BINOP[('+', 'u32', 'u32')] = ('({a} + {b})%Z', 'u32')
+BINOP[('*', 'u32', 'u32')] = ('({a} * {b})%Z', 'u32')
+CASTS = {('u32', 'f32'): 'inject_Z {a}'}
 BINOP[('|', 'ActionEvents', 'ActionEvents')] = ('N.lor {a} {b}', 'ActionEvents')       # bitflags
 BINOP[('&', 'ActionEvents', 'ActionEvents')] = ('N.land {a} {b}', 'ActionEvents')      # bitflags
 BITFLAGS_ASSOC = {'empty': '0%N'}                                                       # bitflags
@@ -1162,6 +1287,76 @@ Definition arr3_zip_update (f : Q -> Q -> Q) (a b : Arr3) : Arr3 :=
 End Glam.
 """
 
+# --- second wave: modifiers ---
+COQ_TYPE['DeadZoneKind'] = 'dzkind'
+COQ_TYPE['SwizzleAxis'] = 'swz'
+COQ_TYPE['(f32,f32)'] = '(Q * Q)%type'
+COQ_TYPE['(f32,f32,f32)'] = '(Q * Q * Q)%type'
+ENUM_MAP['DeadZoneKind'] = {'Radial': ('Radial', 'unit', []), 'Axial': ('Axial', 'unit', [])}
+ENUM_MAP['SwizzleAxis'] = dict((k, (k, 'unit', [])) for k in ('YXZ', 'ZYX', 'XZY', 'YZX', 'ZXY'))
+for _v, _l in (('Vec2', 'vec2'), ('Vec3', 'vec3')):
+    BINOP[('*', _v, _v)] = ('Glam2.%s_mul {a} {b}' % _l, _v)
+GLAM_METHODS.update({
+    ('f32', 'max'): (['f32'], 'f32', 'qmax'), ('f32', 'min'): (['f32'], 'f32', 'qmin'),
+    ('f32', 'signum'): ([], 'f32', 'Glam2.f32_signum'),
+    ('Vec2', 'yx'): ([], 'Vec2', 'Glam2.vec2_yx'),
+    ('Vec3', 'yxz'): ([], 'Vec3', 'Glam2.vec3_yxz'), ('Vec3', 'zyx'): ([], 'Vec3', 'Glam2.vec3_zyx'),
+    ('Vec3', 'xzy'): ([], 'Vec3', 'Glam2.vec3_xzy'), ('Vec3', 'yzx'): ([], 'Vec3', 'Glam2.vec3_yzx'),
+    ('Vec3', 'zxy'): ([], 'Vec3', 'Glam2.vec3_zxy'),
+})
+GLAM_INTO[('(f32,f32)', 'Vec2')] = 'Glam2.tuple2_into_vec2'
+GLAM_INTO[('(f32,f32,f32)', 'Vec3')] = 'Glam2.tuple3_into_vec3'
+# assignment to a component of a `mut` vector local
+GLAM_SETTERS = {('Vec2', 'x'): 'Glam2.vec2_set_x', ('Vec2', 'y'): 'Glam2.vec2_set_y',
+                ('Vec3', 'x'): 'Glam2.vec3_set_x', ('Vec3', 'y'): 'Glam2.vec3_set_y', ('Vec3', 'z'): 'Glam2.vec3_set_z'}
+# methods whose meaning needs a function that is NOT defined here (square root): the translated function gets
+# the function as an extra first parameter; (receiver type, method) -> (params, result, Gallina function, opaque parameter)
+OPAQUE_FNS = {'sqrt': ("sqrt'", 'Q -> Q')}
+GLAM_OPAQUE_METHODS = {
+    ('Vec2', 'length'): ([], 'f32', 'Glam2.vec2_length', 'sqrt'),
+    ('Vec3', 'length'): ([], 'f32', 'Glam2.vec3_length', 'sqrt'),
+    ('Vec2', 'normalize_or_zero'): ([], 'Vec2', 'Glam2.vec2_normalize_or_zero', 'sqrt'),
+    ('Vec3', 'normalize_or_zero'): ([], 'Vec3', 'Glam2.vec3_normalize_or_zero', 'sqrt'),
+}
+GLAM2_V = r"""(* GENERATED by bin/rs2v.py (fixed text): second part of the TRUSTED table of glam / core meanings. *)
+From BEI Require Import Model.Num Generated.GlamTbl.
+
+Module Glam2.
+Import Glam.
+(* Mul<Vec> for Vec: component-wise *)
+Definition vec2_mul (a b : Vec2) : Vec2 := let '(ax, ay) := a in let '(bx, by_) := b in (ax * bx, ay * by_).
+Definition vec3_mul (a b : Vec3) : Vec3 :=
+  let '(ax, ay, az) := a in let '(bx, by_, bz) := b in (ax * bx, ay * by_, az * bz).
+(* f32::signum: 1.0 for +0.0 and positives, -1.0 for negatives (-0.0 and NaN are not modelled) *)
+Definition f32_signum (x : Q) : Q := if qltb x 0 then -1 else 1.
+(* swizzles *)
+Definition vec2_yx (v : Vec2) : Vec2 := let '(x, y) := v in (y, x).
+Definition vec3_yxz (v : Vec3) : Vec3 := let '(x, y, z) := v in (y, x, z).
+Definition vec3_zyx (v : Vec3) : Vec3 := let '(x, y, z) := v in (z, y, x).
+Definition vec3_xzy (v : Vec3) : Vec3 := let '(x, y, z) := v in (x, z, y).
+Definition vec3_yzx (v : Vec3) : Vec3 := let '(x, y, z) := v in (y, z, x).
+Definition vec3_zxy (v : Vec3) : Vec3 := let '(x, y, z) := v in (z, x, y).
+(* From<(f32, f32)> for Vec2, From<(f32, f32, f32)> for Vec3 *)
+Definition tuple2_into_vec2 (t : Q * Q) : Vec2 := t.
+Definition tuple3_into_vec3 (t : Q * Q * Q) : Vec3 := t.
+(* v.x = e on a `mut` vector *)
+Definition vec2_set_x (v : Vec2) (a : Q) : Vec2 := let '(_, y) := v in (a, y).
+Definition vec2_set_y (v : Vec2) (a : Q) : Vec2 := let '(x, _) := v in (x, a).
+Definition vec3_set_x (v : Vec3) (a : Q) : Vec3 := let '(_, y, z) := v in (a, y, z).
+Definition vec3_set_y (v : Vec3) (a : Q) : Vec3 := let '(x, _, z) := v in (x, a, z).
+Definition vec3_set_z (v : Vec3) (a : Q) : Vec3 := let '(x, y, _) := v in (x, y, a).
+(* length and normalize_or_zero, relative to a square-root function (an extra parameter of the translated code) *)
+Definition vec2_length (sqrt : Q -> Q) (v : Vec2) : Q := sqrt (vec2_length_squared v).
+Definition vec3_length (sqrt : Q -> Q) (v : Vec3) : Q := sqrt (vec3_length_squared v).
+Definition vec2_normalize_or_zero (sqrt : Q -> Q) (v : Vec2) : Vec2 :=
+  let len := vec2_length sqrt v in
+  if qeqb len 0 then Vec2_ZERO else let '(x, y) := v in (x / len, y / len).
+Definition vec3_normalize_or_zero (sqrt : Q -> Q) (v : Vec3) : Vec3 :=
+  let len := vec3_length sqrt v in
+  if qeqb len 0 then Vec3_ZERO else let '(x, y, z) := v in (x / len, y / len, z / len).
+End Glam2.
+"""
+
 # =====================================================================================
 # 4. Translator: typed AST -> Gallina text
 # =====================================================================================
@@ -1213,6 +1408,11 @@ def q_literal(text):
     if t.endswith('.'):
         t += '0'
     fr = Fraction(t)
+    import struct as _struct
+    try:                                   # a literal denotes the NEAREST f32 (0.5 is exact, 1e-4 is not)
+        fr = Fraction(_struct.unpack('f', _struct.pack('f', float(fr)))[0])
+    except OverflowError:
+        pass
     if fr.denominator == 1:
         return '%d%%Q' % fr.numerator
     return '(%d # %d)%%Q' % (fr.numerator, fr.denominator)
@@ -1262,7 +1462,8 @@ class World(object):
     def __init__(self, repo):
         self.repo = repo
         self.enums = {}        # name -> (variants in declaration order, derives)
-        self.structs = {}      # name -> [(field, type)]
+        self.structs = {}      # name -> [(field, type)]  (modelled fields only)
+        self.smeta = {}        # name -> dict(coq, proj {field: name}, setter {field: name}, out, generated)
         self.fns = {}          # (type, name) -> (Fn node, SrcFile, OutFile)
         self.froms = {}        # (source type, target type) -> (Fn node, SrcFile, OutFile)
         self.flags = {}        # type -> [(const, value)]
@@ -1300,9 +1501,10 @@ class World(object):
             else:
                 self.enums[name] = (decl, ders)
 
-    def load_struct(self, sf, name):
+    def load_struct(self, sf, name, out=None):
+        """struct mapped to a record of the MODEL (RECORD_MAP)"""
         it = sf.item('struct', name)
-        fields = sf.parser(it.pos).struct_body()
+        fields = [x for x in sf.parser(it.pos).struct_body() if not ignored_field(x[1])]
         cname, table = RECORD_MAP[name]
         for (f, ty, line) in fields:
             if f not in table:
@@ -1310,13 +1512,45 @@ class World(object):
             if table[f][1] != ty:
                 raise Unsupported(sf.rel, line, "type of field `%s.%s` differs from the model counterpart" % (name, f))
         self.structs[name] = [(f, ty) for (f, ty, _) in fields]
+        pre = '' if name == 'TriggerTracker' else name + '_'
+        self.smeta[name] = dict(coq=cname, proj=dict((f, table[f][0]) for (f, _, _) in fields),
+                                setter=dict((f, 'set_%s%s_src' % (pre, f)) for (f, _, _) in fields),
+                                out=out, generated=False, generics=[])
+
+    def gen_struct(self, sf, name, out):
+        """struct without a model record: a Gallina Record is GENERATED from its declaration"""
+        it = sf.item('struct', name)
+        fields = [x for x in sf.parser(it.pos).struct_body() if not ignored_field(x[1])]
+        for (f, ty, line) in fields:
+            if ty not in COQ_TYPE and ty not in self.smeta:
+                raise Unsupported(sf.rel, line, "field `%s.%s` of unsupported type `%s`" % (name, f, ty))
+        self.structs[name] = [(f, ty) for (f, ty, _) in fields]
+        self.smeta[name] = dict(coq=name + '_src', proj=dict((f, '%s_%s' % (name, f)) for (f, _, _) in fields),
+                                setter=dict((f, 'set_%s_%s_src' % (name, f)) for (f, _, _) in fields),
+                                out=out, generated=True, generics=list(getattr(it, 'generics', [])), line=it.line)
+
+    def coq_type_of(self, ty):
+        if ty in COQ_TYPE:
+            return COQ_TYPE[ty]
+        if ty in self.smeta:
+            return self.smeta[ty]['coq']
+        return None
 
     def load_impls(self, sf, out, tyname):
         n = 0
         for it in sf.items:
             if it.kind != 'impl':
                 continue
-            if it.header == [tyname]:
+            base = it.ty.split('<')[0] if it.ty else None
+            if base == tyname and it.trait != 'From' and (it.trait is None or it.trait in TRANSLATED_TRAITS) \
+                    and not (it.trait is None and it.header == [tyname]):
+                n += 1
+                for f in sf.parser(it.pos).impl_body_lenient():
+                    if (tyname, f.name) in self.fns:
+                        raise Unsupported(sf.rel, f.line, "duplicate function `%s::%s`" % (tyname, f.name))
+                    f.generics = it.generics
+                    self.fns[(tyname, f.name)] = (f, sf, out)
+            elif it.header == [tyname]:
                 n += 1
                 for f in sf.parser(it.pos).impl_body_lenient():
                     if (tyname, f.name) in self.fns:
@@ -1493,10 +1727,10 @@ def always_returns_block(b):
 def always_returns_expr(e):
     if e.k == 'Return':
         return True
-    if e.k == 'If':
+    if e.k in ('If', 'IfLet'):
         if e.els is None:
             return False
-        els = always_returns_expr(e.els) if e.els.k == 'If' else always_returns_block(e.els)
+        els = always_returns_expr(e.els) if e.els.k in ('If', 'IfLet') else always_returns_block(e.els)
         return always_returns_block(e.then) and els
     if e.k == 'Block':
         return always_returns_block(e)
@@ -1510,7 +1744,7 @@ def always_returns_stmt(s):
 def assign_root(lhs):
     """root variable of an assignment target:  x | *x | x.f | (*x).f"""
     e = lhs
-    if e.k == 'Field':
+    while e.k == 'Field':
         e = e.recv
     while e.k == 'Paren':
         e = e.expr
@@ -1525,6 +1759,8 @@ def assigned_vars(n, acc):
     if isinstance(n, Node):
         if n.k == 'Assign':
             acc.append((assign_root(n.lhs), n.line))
+        if n.k == 'Expr' and n.expr.k == 'Method':         # statement `place.method(..);` may mutate place
+            acc.append((assign_root(n.expr.recv), n.line))
         for v in n.__dict__.values():
             assigned_vars(v, acc)
     elif isinstance(n, (list, tuple)):
@@ -1548,9 +1784,35 @@ class FnTranslator(object):
         return ty
 
     def coq_type(self, ty, line):
-        if ty not in COQ_TYPE:
+        t = self.w.coq_type_of(ty)
+        if t is None:
             self.fail(line, "unsupported type `%s`" % ty)
-        return COQ_TYPE[ty]
+        if ty in self.w.smeta:
+            self.use_out(self.w.smeta[ty]['out'])
+        return t
+
+    def use_out(self, out):
+        if out is not None and out is not self.out and out.name not in self.out.imports:
+            self.out.imports.append(out.name)
+
+    def meta(self, ty, line):
+        if ty not in self.w.smeta:
+            self.fail(line, "type `%s` is not a translated struct" % ty)
+        self.use_out(self.w.smeta[ty]['out'])
+        return self.w.smeta[ty]
+
+    def opq(self, name):
+        if name not in self.opq_used:
+            self.opq_used.append(name)
+        return OPAQUE_FNS[name][0]
+
+    def time_param(self, m, line):
+        table = dict(TIME_METHODS)
+        if m not in table:
+            self.fail(line, "method `%s` on `%s`" % (m, TIME_TYPE))
+        if m not in self.time_used:
+            self.time_used.append(m)
+        return table[m]
 
     # ---------------- functions
     def emit(self, coq_name):
@@ -1558,7 +1820,11 @@ class FnTranslator(object):
         if getattr(f, 'bad', None) is not None:
             raise f.bad
         env = {}
-        binders = []
+        binders = []          # strings, or ('time',) / ('lookup',) placeholders resolved after the body
+        self.time_used = []
+        self.opq_used = []
+        self.lookup_used = False
+        self.generics = list(getattr(f, 'generics', []))
         if f.self_kind is not None:
             env['self'] = Var(self.self_type, "self'", 'refmut' if f.self_kind == 'refmut' else 'val')
             binders.append("(self' : %s)" % self.coq_type(self.self_type, f.line))
@@ -1567,26 +1833,50 @@ class FnTranslator(object):
                 self.fail(pat.line, "parameter pattern")
             ty, rk = strip_ref(self.resolve_type(ty, pat.line))
             ty = self.resolve_type(ty, pat.line)
+            if ty.startswith('impl Into<') and ty.endswith('>'):
+                ty = ty[len('impl Into<'):-1]          # modelled as the already converted value
+            if ty == TIME_TYPE and rk == 'ref':
+                env[pat.name] = Var(ty, None, 'time')
+                binders.append(('time',))
+                continue
+            if ty == ACTIONS_TYPE and rk == 'ref':
+                env[pat.name] = Var(ty, None, 'actions')
+                binders.append(('lookup',))
+                continue
             if rk == 'refmut':
                 self.fail(pat.line, "`&mut` parameter `%s`" % pat.name)
             env[pat.name] = Var(ty, pat.name + "'", 'mut' if pat.mut else 'val')
             binders.append("(%s' : %s)" % (pat.name, self.coq_type(ty, pat.line)))
         body = self.sf.parser(f.body_pos).block()
         ret = self.resolve_type(f.ret, f.line)
-        if f.self_kind == 'refmut':
-            if ret != '()':
-                self.fail(f.line, "`&mut self` method returning a value")
+        self.pair = False
+        if f.self_kind == 'refmut' and ret == '()':
             self.ret = None
             text = self.seq(body.stmts, body.tail, env, ('vars', ['self']))
-            rty = self.self_type
+            rtext = self.coq_type(self.self_type, f.line)
         else:
             self.ret = ret
+            self.pair = f.self_kind == 'refmut'        # result: (new self, value)
             text, rty = self.seq(body.stmts, body.tail, env, ('value', ret, True))
             if rty != ret:
                 self.fail(f.line, "body has type `%s`, declared `%s`" % (rty, ret))
+            rtext = self.coq_type(rty, f.line)
+            if self.pair:
+                rtext = "(%s * %s)" % (self.coq_type(self.self_type, f.line), rtext)
+        f.time_methods = [m for (m, _) in TIME_METHODS if m in self.time_used]
+        f.uses_lookup = self.lookup_used
+        f.opaque_fns = [n for n in sorted(OPAQUE_FNS) if n in self.opq_used]
+        final = ["(%s : %s)" % OPAQUE_FNS[n] for n in f.opaque_fns]
+        for b in binders:
+            if b == ('time',):
+                final += ["(%s : Q)" % c for (m, c) in TIME_METHODS if m in self.time_used]
+            elif b == ('lookup',):
+                if self.lookup_used:
+                    final.append("(lookup' : %s)" % COQ_TYPE[LOOKUP_RESULT])
+            else:
+                final.append(b)
         self.out.defs.append("(* %s::%s, %s:%d *)\nDefinition %s %s : %s :=\n  %s.\n" % (
-            self.self_type, f.name, self.sf.rel, f.line, coq_name, ' '.join(binders),
-            self.coq_type(rty, f.line), ind(text)))
+            self.self_type, f.name, self.sf.rel, f.line, coq_name, ' '.join(final), rtext, ind(text)))
 
     # ---------------- statements (continuation style)
     def vars_text(self, names, env):
@@ -1601,11 +1891,39 @@ class FnTranslator(object):
 
     def block_as(self, b, env, want):
         """translate a Block (or an `else if` If node) under `want`"""
-        if b.k == 'If':
+        if b.k in ('If', 'IfLet'):
             if want[0] == 'value':
                 return self.expr(b, env, want[1], want[2])
             return self.seq([Node('Expr', b.line, expr=b)], None, env, want)
         return self.seq(b.stmts, b.tail, dict(env), want)
+
+    def tail_expr(self, e, env, exp, ret_ok):
+        """expression in result position; at function level of a `&mut self` method with a result the
+           leaves are paired with the current self"""
+        if e.k in ('If', 'IfLet', 'Match', 'Block', 'Return') or not (ret_ok and self.pair):
+            return self.expr(e, env, exp, ret_ok)
+        t, ty = self.expr(e, env, exp)
+        return "(%s, %s)" % (env['self'].coq, t), ty
+
+    def cond_parts(self, e, env):
+        """for If / IfLet: (formatter (then text, else text) -> text, env of the then branch)"""
+        if e.k == 'If':
+            cond, cty = self.expr(e.cond, env, 'bool')
+            if cty != 'bool':
+                self.fail(e.line, "condition of type `%s`" % cty)
+            return (lambda a, b: "if %s\nthen %s\nelse %s" % (cond, ind(a, 5), ind(b, 5))), env
+        st, sty = self.expr(e.scrut, env, None)
+        p = e.pat
+        if not (sty.startswith('Option<') and p.k == 'PCtor' and p.path == ['Some'] and len(p.args) == 1
+                and p.args[0].k in ('PBind', 'PWild')):
+            self.fail(e.line, "`if let` (only `if let Some(x) = <Option>` is supported)")
+        env2 = dict(env)
+        x = '_'
+        if p.args[0].k == 'PBind':
+            x = p.args[0].name + "'"
+            env2[p.args[0].name] = Var(sty[len('Option<'):-1], x, 'val')
+        return (lambda a, b: "match %s with\n| Some %s =>\n    %s\n| None =>\n    %s\nend"
+                % (st, x, ind(a, 4), ind(b, 4))), env2
 
     def seq(self, stmts, tail, env, want):
         """want = ('value', expected type or None, return allowed)  -> (text, type)
@@ -1615,7 +1933,7 @@ class FnTranslator(object):
             if value_mode:
                 if tail is None:
                     self.fail(0, "block without a value where one is needed")
-                return self.expr(tail, env, want[1], want[2])
+                return self.tail_expr(tail, env, want[1], want[2])
             if tail is not None:
                 return self.seq([Node('Expr', tail.line, expr=tail)], None, env, want)
             return self.vars_text(want[1], env)
@@ -1659,32 +1977,37 @@ class FnTranslator(object):
                 self.fail(s.line, "`return` without a value")
             if rest or tail is not None:
                 self.fail(s.line, "code after `return`")
-            return self.expr(s.expr.expr, env, self.ret)
-        if s.k == 'Expr' and s.expr.k == 'If' and contains_return(s.expr):
+            return self.tail_expr(s.expr.expr, env, self.ret, True)
+        if s.k == 'Expr' and s.expr.k in ('If', 'IfLet') and contains_return(s.expr):
             e = s.expr
             if not value_mode or not want[2]:
                 self.fail(s.line, "`return` inside `if` here")
-            cond, cty = self.expr(e.cond, env, 'bool')
-            if cty != 'bool':
-                self.fail(e.line, "condition of type `%s`" % cty)
+            fmt, env_then = self.cond_parts(e, env)
 
-            def branch(b):
+            def branch(b, benv):
                 if b is None:
                     return go_rest()
-                if b.k == 'If':
-                    return self.seq([Node('Expr', b.line, expr=b)] + rest, tail, env, want)
+                if b.k in ('If', 'IfLet'):
+                    return self.seq([Node('Expr', b.line, expr=b)] + rest, tail, benv, want)
                 if always_returns_block(b):
-                    return self.seq(b.stmts, b.tail, env, want)
+                    return self.seq(b.stmts, b.tail, benv, want)
                 if any(x.k == 'Let' for x in b.stmts):
                     self.fail(b.line, "`let` in a branch that may fall through next to a branch that returns")
+                if benv is not env and (rest or tail is not None):
+                    for nm in benv:
+                        if nm in env and benv[nm] is not env[nm]:
+                            self.fail(b.line, "`if let` binding `%s` shadows a variable in a branch that may fall through" % nm)
                 extra = [Node('Expr', b.tail.line, expr=b.tail)] if b.tail is not None else []
-                return self.seq(b.stmts + extra + rest, tail, env, want)
-            t1, ty1 = branch(e.then)
-            t2, ty2 = branch(e.els)
+                return self.seq(b.stmts + extra + rest, tail, benv, want)
+            t1, ty1 = branch(e.then, env_then)
+            t2, ty2 = branch(e.els, env)
             if ty1 != ty2:
                 self.fail(e.line, "branches of types `%s` and `%s`" % (ty1, ty2))
-            return ("if %s\nthen %s\nelse %s" % (cond, ind(t1, 5), ind(t2, 5)), ty1)
-        if s.k == 'Expr' and s.expr.k in ('If', 'Match', 'Block'):
+            return (fmt(t1, t2), ty1)
+        if s.k == 'Expr' and s.expr.k == 'Method':
+            name, newval = self.method_stmt(s.expr, env)
+            return prefix("let %s :=\n  %s in\n" % (env[name].coq, ind(newval)), go_rest())
+        if s.k == 'Expr' and s.expr.k in ('If', 'IfLet', 'Match', 'Block'):
             e = s.expr
             if contains_return(e):
                 self.fail(s.line, "`return` inside `%s` statement" % e.k.lower())
@@ -1712,51 +2035,55 @@ class FnTranslator(object):
         want = ('vars', names)
         if e.k == 'Block':
             return self.block_as(e, env, want)
-        if e.k == 'If':
-            cond, cty = self.expr(e.cond, env, 'bool')
-            if cty != 'bool':
-                self.fail(e.line, "condition of type `%s`" % cty)
-            t1 = self.block_as(e.then, env, want)
+        if e.k in ('If', 'IfLet'):
+            fmt, env_then = self.cond_parts(e, env)
+            t1 = self.block_as(e.then, env_then, want)
             t2 = self.block_as(e.els, env, want) if e.els is not None else self.vars_text(names, env)
-            return "if %s\nthen %s\nelse %s" % (cond, ind(t1, 5), ind(t2, 5))
+            return fmt(t1, t2)
         if e.k == 'Match':
             return self.match(e, env, None, False, want)[0]
         self.fail(e.line, "statement `%s`" % e.k)
 
+    def place(self, e, env, line):
+        """assignable place  x | *x | place.f  ->  (root variable, text of current value, type, rebuild)
+           where rebuild(text of new value) = text of the new value of the root variable"""
+        while e.k == 'Paren':
+            e = e.expr
+        if e.k == 'Field':
+            root, cur, ty, rb = self.place(e.recv, env, line)[:4]
+            if (ty, e.name) in GLAM_SETTERS:
+                if env[root].kind not in ('mut', 'refmut'):
+                    self.fail(line, "assignment to a component of immutable `%s`" % root)
+                return (root, "%s %s" % (GLAM_FIELDS[(ty, e.name)][0], par(cur)), 'f32',
+                        lambda t, rb=rb, cur=cur, st=GLAM_SETTERS[(ty, e.name)]: rb("%s %s %s" % (st, par(cur), par(t))))
+            m = self.meta(ty, line)
+            decl = dict(self.w.structs[ty])
+            if e.name not in decl:
+                self.fail(line, "unknown field `%s` of `%s`" % (e.name, ty))
+            if env[root].kind not in ('mut', 'refmut'):
+                self.fail(line, "assignment to a field of immutable `%s`" % root)
+            return (root, "%s %s" % (m['proj'][e.name], par(cur)), decl[e.name],
+                    lambda t, rb=rb, cur=cur, st=m['setter'][e.name]: rb("%s %s %s" % (st, par(cur), par(t))))
+        deref = False
+        if e.k == 'Unary' and e.op == '*':
+            deref = True
+            e = e.expr
+        if e.k != 'Path' or len(e.segs) != 1 or e.segs[0] not in env or env[e.segs[0]].coq is None:
+            self.fail(line, "unsupported assignment target")
+        root = e.segs[0]
+        v = env[root]
+        if deref and v.kind != 'refmut':
+            self.fail(line, "`*%s` where `%s` is not a `&mut`" % (root, root))
+        return root, v.coq, v.ty, (lambda t: t), deref
+
     def assign(self, s, env):
         """returns (rust variable, text of its new value)"""
-        lhs = s.lhs
-        while lhs.k == 'Paren':
-            lhs = lhs.expr
-        root = assign_root(lhs)
-        if root is None or root not in env:
-            self.fail(s.line, "unsupported assignment target")
-        v = env[root]
-        field = None
-        if lhs.k == 'Field':
-            field = lhs.name
-            inner = lhs.recv
-            while inner.k == 'Paren':
-                inner = inner.expr
-            deref = inner.k == 'Unary'
-        else:
-            deref = lhs.k == 'Unary'
-        if deref and v.kind != 'refmut':
-            self.fail(s.line, "`*%s` where `%s` is not a `&mut`" % (root, root))
-        if not deref and field is None and v.kind != 'mut':
-            self.fail(s.line, "assignment to `%s`, which is not a `mut` local" % root)
-        if field is not None and v.kind not in ('mut', 'refmut'):
-            self.fail(s.line, "assignment to a field of immutable `%s`" % root)
-        if field is None:
-            cur, cty = v.coq, v.ty
-        else:
-            if v.ty not in RECORD_MAP:
-                self.fail(s.line, "field assignment on type `%s`" % v.ty)
-            decl = dict(self.w.structs[v.ty])
-            if field not in decl:
-                self.fail(s.line, "unknown field `%s`" % field)
-            cty = decl[field]
-            cur = "%s %s" % (RECORD_MAP[v.ty][1][field][0], v.coq)
+        pl = self.place(s.lhs, env, s.line)
+        root, cur, cty, rb = pl[0], pl[1], pl[2], pl[3]
+        if len(pl) == 5:                      # plain variable
+            v = env[root]
+            if not pl[4] and v.kind != 'mut':
+                self.fail(s.line, "assignment to `%s`, which is not a `mut` local" % root)
         try:
             rhs, rty = self.expr(s.rhs, env, cty)
         except NeedExpected as e:
@@ -1770,9 +2097,22 @@ class FnTranslator(object):
             if key not in BINOP or BINOP[key][1] != cty:
                 self.fail(s.line, "operator `%s` on `%s` and `%s`" % (s.op, cty, rty))
             new = BINOP[key][0].format(a=par(cur), b=par(rhs))
-        if field is not None:
-            new = "set_%s_src %s %s" % (field, v.coq, par(new))
-        return root, new
+        return root, rb(new)
+
+    def method_stmt(self, e, env):
+        """statement  place.m(args);  where m is a translated `&mut self` method returning ()"""
+        pl = self.place(e.recv, env, e.line)
+        root, cur, ty, rb = pl[0], pl[1], pl[2], pl[3]
+        key = (ty, e.name)
+        if key not in self.w.fns:
+            self.fail(e.line, "statement call of `%s` on `%s`" % (e.name, ty))
+        f = self.w.fns[key][0]
+        if f.self_kind != 'refmut' or f.ret != '()':
+            self.fail(e.line, "statement call of `%s`, which is not a `&mut self` method returning ()" % e.name)
+        if env[root].kind not in ('mut', 'refmut'):
+            self.fail(e.line, "mutating call on immutable `%s`" % root)
+        t, _ = self.user_call(key, cur, e.args, env, e.line, mutating=True)
+        return root, rb(t)
 
     def for_zip(self, s, env):
         """for (p, q) in X.iter_mut().zip(Y) { BODY }   with X : mut [f32;3], Y : [f32;3]"""
@@ -1922,7 +2262,7 @@ class FnTranslator(object):
                         if a.body.k == 'Block':
                             results[i] = self.seq(a.body.stmts, a.body.tail, dict(env2), ('value', ty, ret_ok))
                         else:
-                            results[i] = self.expr(a.body, env2, ty, ret_ok)
+                            results[i] = self.tail_expr(a.body, env2, ty, ret_ok)
                         if ty is None:
                             ty = results[i][1]
                 except NeedExpected:
@@ -1964,14 +2304,28 @@ class FnTranslator(object):
         if k == 'Bool':
             return ('true' if e.value else 'false'), 'bool'
         if k == 'Int':
-            self.fail(e.line, "integer literal in an expression")
+            if exp == 'u32':
+                digits = e.text.replace('_', '')
+                if digits.endswith('u32'):
+                    digits = digits[:-3]
+                return "%d%%Z" % int(digits, 0), 'u32'
+            self.fail(e.line, "integer literal where the type `u32` is not known from the context")
+        if k == 'Cast':
+            t, ty = self.expr(e.expr, env, None)
+            if (ty, e.ty) not in CASTS:
+                self.fail(e.line, "cast from `%s` to `%s`" % (ty, e.ty))
+            return CASTS[(ty, e.ty)].format(a=par(t)), e.ty
+        if k in ('If', 'IfLet', 'Match', 'Block') and not ret_ok:
+            for (nm, ln) in assigned_vars(e, []):
+                if nm is None or nm in env:
+                    self.fail(ln, "assignment inside a block that is used as a value")
         if k == 'Path':
             if len(e.segs) == 1:
                 nm = e.segs[0]
                 if nm not in env:
                     self.fail(e.line, "unknown variable `%s`" % nm)
-                if env[nm].kind == 'opaque':
-                    self.fail(e.line, "use of `%s` other than a trait method call" % nm)
+                if env[nm].kind in ('opaque', 'time', 'actions'):
+                    self.fail(e.line, "use of `%s` other than a method call" % nm)
                 return env[nm].coq, env[nm].ty
             tname, name = self.resolve_type(e.segs[-2], e.line), e.segs[-1]
             if (tname, name) in GLAM_CONSTS:
@@ -2011,6 +2365,17 @@ class FnTranslator(object):
             r = e.recv
             if r.k == 'Path' and len(r.segs) == 1 and r.segs[0] in env and env[r.segs[0]].kind == 'opaque':
                 return self.opaque_call(e, env[r.segs[0]])
+            if r.k == 'Path' and len(r.segs) == 1 and r.segs[0] in env and env[r.segs[0]].kind == 'time':
+                if e.args or e.targs:
+                    self.fail(e.line, "arguments in a call on `%s`" % TIME_TYPE)
+                return self.time_param(e.name, e.line), 'f32'
+            if r.k == 'Path' and len(r.segs) == 1 and r.segs[0] in env and env[r.segs[0]].kind == 'actions':
+                if e.name != 'action' or e.args or len(e.targs) != 1 or e.targs[0] not in self.generics:
+                    self.fail(e.line, "use of `&ActionsData` other than `.action::<A>()` with A a type parameter")
+                self.lookup_used = True
+                return "lookup'", LOOKUP_RESULT
+            if e.targs:
+                self.fail(e.line, "turbofish method call")
             rt, rty = self.expr(r, env, None)
             if (rty, e.name) in self.w.fns:
                 return self.user_call((rty, e.name), rt, e.args, env, e.line)
@@ -2025,6 +2390,11 @@ class FnTranslator(object):
                         self.fail(a.line, "argument of type `%s`, expected `%s`" % (ty, pty))
                     args.append(par(t))
                 return ' '.join([fn, par(rt)] + args), res
+            if (rty, e.name) in GLAM_OPAQUE_METHODS:
+                ptys, res, fn, on = GLAM_OPAQUE_METHODS[(rty, e.name)]
+                if e.args:
+                    self.fail(e.line, "wrong number of arguments for `%s`" % e.name)
+                return ' '.join([fn, self.opq(on), par(rt)]), res
             if e.name == 'into' and not e.args:
                 if exp is None:
                     raise NeedExpected(e.line)
@@ -2037,11 +2407,11 @@ class FnTranslator(object):
             self.fail(e.line, "method `%s` on `%s`" % (e.name, rty))
         if k == 'Field':
             rt, rty = self.expr(e.recv, env, None)
-            if rty in RECORD_MAP:
+            if rty in self.w.smeta:
                 decl = dict(self.w.structs[rty])
                 if e.name not in decl:
                     self.fail(e.line, "unknown field `%s` of `%s`" % (e.name, rty))
-                return "%s %s" % (RECORD_MAP[rty][1][e.name][0], par(rt)), decl[e.name]
+                return "%s %s" % (self.meta(rty, e.line)['proj'][e.name], par(rt)), decl[e.name]
             if (rty, e.name) in GLAM_FIELDS:
                 fn, res = GLAM_FIELDS[(rty, e.name)]
                 return "%s %s" % (fn, par(rt)), res
@@ -2060,8 +2430,12 @@ class FnTranslator(object):
             self.fail(e.line, "operator `%s` on `%s`" % (e.op, ty))
         if k == 'Binary':
             try:
+                if e.lhs.k == 'Int' and e.rhs.k != 'Int':
+                    raise NeedExpected(e.line)
                 lt, lty = self.expr(e.lhs, env, None)
                 try:
+                    if e.rhs.k == 'Int':
+                        raise NeedExpected(e.line)
                     rt, rty = self.expr(e.rhs, env, None)
                 except NeedExpected:
                     rt, rty = self.expr(e.rhs, env, lty)
@@ -2089,31 +2463,45 @@ class FnTranslator(object):
                          '>=': 'Nat.leb ({b}) ({a})'}[e.op]
                     return f.format(a=a, b=b), 'bool'
             self.fail(e.line, "operator `%s` on `%s` and `%s`" % (e.op, lty, rty))
-        if k == 'If':
-            cond, cty = self.expr(e.cond, env, 'bool')
-            if cty != 'bool':
-                self.fail(e.line, "condition of type `%s`" % cty)
+        if k in ('If', 'IfLet'):
+            fmt, env_then = self.cond_parts(e, env)
             if e.els is None:
                 self.fail(e.line, "`if` without `else` used as a value")
             want = ('value', exp, ret_ok)
             try:
-                t1, ty1 = self.block_as(e.then, env, want)
+                t1, ty1 = self.block_as(e.then, env_then, want)
                 t2, ty2 = self.block_as(e.els, env, ('value', exp if exp else ty1, ret_ok))
             except NeedExpected:
                 if exp is not None:
                     raise
                 t2, ty2 = self.block_as(e.els, env, want)
-                t1, ty1 = self.block_as(e.then, env, ('value', ty2, ret_ok))
+                t1, ty1 = self.block_as(e.then, env_then, ('value', ty2, ret_ok))
             if ty1 != ty2:
                 self.fail(e.line, "branches of types `%s` and `%s`" % (ty1, ty2))
-            return "if %s\nthen %s\nelse %s" % (cond, ind(t1, 5), ind(t2, 5)), ty1
+            return fmt(t1, t2), ty1
         if k == 'Match':
             return self.match(e, env, exp, ret_ok)
         if k == 'Block':
             return self.seq(e.stmts, e.tail, dict(env), ('value', exp, ret_ok))
         if k == 'StructLit':
             tname = self.resolve_type(e.path[-1], e.line)
-            if tname not in RECORD_MAP or tname not in self.w.structs:
+            if len(e.path) >= 2 and self.resolve_type(e.path[-2], e.line) in ENUM_MAP:
+                ename, vname = self.resolve_type(e.path[-2], e.line), e.path[-1]
+                decl = dict((v, (kd, pl)) for (v, kd, pl) in self.enum_of(ename, e.line))
+                if vname not in decl or decl[vname][0] != 'struct':
+                    self.fail(e.line, "`%s::%s` is not a struct variant" % (ename, vname))
+                given = dict(e.fields)
+                payload = decl[vname][1]
+                if sorted(given) != sorted(f for f, _ in payload) or len(e.fields) != len(payload):
+                    self.fail(e.line, "struct variant literal must give every field exactly once")
+                args = []
+                for (f, fty) in payload:
+                    t, ty = self.expr(given[f], env, fty)
+                    if ty != fty:
+                        self.fail(e.line, "field `%s` of type `%s`, expected `%s`" % (f, ty, fty))
+                    args.append(t)
+                return self.ctor(ename, vname, args, e.line), ename
+            if tname not in self.w.smeta or tname not in self.w.structs:
                 self.fail(e.line, "struct literal of `%s`" % tname)
             decl = dict(self.w.structs[tname])
             names = [f for (f, _) in e.fields]
@@ -2124,38 +2512,59 @@ class FnTranslator(object):
                 t, ty = self.expr(fe, env, decl[f])
                 if ty != decl[f]:
                     self.fail(fe.line, "field `%s` of type `%s`, expected `%s`" % (f, ty, decl[f]))
-                parts.append("%s := %s" % (RECORD_MAP[tname][1][f][0], t))
+                parts.append("%s := %s" % (self.meta(tname, e.line)['proj'][f], t))
             return "{| " + ';\n   '.join(parts) + " |}", tname
         if k == 'Return':
             if not ret_ok or e.expr is None:
                 self.fail(e.line, "`return` here")
             return self.expr(e.expr, env, self.ret)
+        if k == 'Tuple' and len(e.items) in (2, 3):
+            parts = []
+            for x in e.items:
+                t, ty = self.expr(x, env, 'f32')
+                if ty != 'f32':
+                    self.fail(x.line, "tuple component of type `%s` (only tuples of f32 are supported)" % ty)
+                parts.append(t)
+            return '(' + ', '.join(parts) + ')', '(' + ','.join(['f32'] * len(parts)) + ')'
         names = {'Cast': "`as` cast", 'Ref': "borrow expression", 'Macro': "macro invocation",
                  'Tuple': "tuple expression", 'Array': "array literal", 'Index': "indexing",
                  'TupleIndex': "tuple field", 'Str': "string / char literal"}
         self.fail(e.line, names.get(k, "expression `%s`" % k))
 
-    def user_call(self, key, recv_text, args, env, line):
+    def user_call(self, key, recv_text, args, env, line, mutating=False):
         f, sf, out = self.w.fns[key]
         if getattr(f, 'bad', None) is not None:
             raise f.bad
         if (f.self_kind is not None) != (recv_text is not None):
             self.fail(line, "`%s::%s` called in the wrong style" % key)
-        if f.self_kind == 'refmut':
+        if f.self_kind == 'refmut' and not mutating:
             self.fail(line, "call of the `&mut self` method `%s` inside an expression" % key[1])
         if len(args) != len(f.params):
             self.fail(line, "wrong number of arguments for `%s`" % key[1])
+        name = self.w.require_fn(key, self.out, self.sf, line)      # callee first: its opaque parameters
         texts = [par(recv_text)] if recv_text is not None else []
         for (a, (pat, pty)) in zip(args, f.params):
-            pty = strip_ref(pty)[0]
+            pty, prk = strip_ref(pty)
             pty = key[0] if pty == 'Self' else pty
+            if pty.startswith('impl Into<') and pty.endswith('>'):
+                pty = pty[len('impl Into<'):-1]
+            if pty == TIME_TYPE:
+                while a.k in ('Paren', 'Ref'):
+                    a = a.expr
+                if not (a.k == 'Path' and len(a.segs) == 1 and a.segs[0] in env and env[a.segs[0]].kind == 'time'):
+                    self.fail(a.line, "argument for a `&Time<Virtual>` parameter must be such a parameter")
+                texts += [self.time_param(m, a.line) for m in f.time_methods]
+                continue
+            if pty == ACTIONS_TYPE:
+                if f.uses_lookup:
+                    self.fail(a.line, "passing `&ActionsData` to a function that uses it")
+                continue
             t, ty = self.expr(a, env, pty)
             if ty != pty:
                 self.fail(a.line, "argument of type `%s`, expected `%s`" % (ty, pty))
             texts.append(par(t))
         ret = key[0] if f.ret == 'Self' else f.ret
-        name = self.w.require_fn(key, self.out, self.sf, line)
-        return ' '.join([name] + texts), ret
+        return ' '.join([name] + [self.opq(n) for n in getattr(f, 'opaque_fns', [])] + texts), ret
 
 
 def expr_source(e):
@@ -2218,17 +2627,25 @@ def emit_flags(w, out, name, sf):
 
 
 def emit_setters(w, out, name, sf):
-    cty, table = RECORD_MAP[name]
+    m = w.smeta[name]
+    cty, proj = m['coq'], m['proj']
     fields = w.structs[name]
+    if m['generated']:
+        decl = '; '.join("%s : %s" % (proj[f], w.coq_type_of(ty)) for (f, ty) in fields)
+        out.defs.append("(* struct %s, %s:%d: record generated from the declaration *)\n"
+                        "Record %s : Type := mk_%s { %s }.\n" % (name, sf.rel, m['line'], cty, cty, decl))
+        for (f, ty) in fields:
+            if ty in w.smeta and w.smeta[ty]['out'] is not out and w.smeta[ty]['out'].name not in out.imports:
+                out.imports.append(w.smeta[ty]['out'].name)
     out.defs.append("Definition %s_fields_src : list string := %s.\n"
                     % (name, coq_string_list(f for (f, _) in fields)))
     for (f, ty) in fields:
         parts = []
         for (g, _) in fields:
-            parts.append("%s := %s" % (table[g][0], "x" if g == f else "%s t" % table[g][0]))
+            parts.append("%s := %s" % (proj[g], "x" if g == f else "%s t" % proj[g]))
         out.defs.append("(* struct %s: assignment to field `%s` *)\n"
-                        "Definition set_%s_src (t : %s) (x : %s) : %s :=\n  {| %s |}.\n"
-                        % (name, f, f, cty, COQ_TYPE[ty], cty, ';\n     '.join(parts)))
+                        "Definition %s (t : %s) (x : %s) : %s :=\n  {| %s |}.\n"
+                        % (name, f, m['setter'][f], cty, w.coq_type_of(ty), cty, ';\n     '.join(parts)))
 
 
 def emit_loop_step(w, sf, out, tyname, fname, coq_name):
@@ -2277,6 +2694,17 @@ def emit_loop_step(w, sf, out, tyname, fname, coq_name):
 VALUE_FNS = ['zero', 'dim', 'convert', 'is_actuated', 'as_bool', 'as_axis1d', 'as_axis2d', 'as_axis3d']
 EVENTS_FNS = ['new']
 TRACKER_FNS = ['new', 'state', 'value', 'events_blocked', 'overwrite', 'combine']
+DATA_FNS = ['update', 'state']
+MODIF_FILES = [('scale.rs', 'Scale', 'struct', [], ['apply']),
+               ('delta_scale.rs', 'DeltaScale', 'struct', [], ['apply']),
+               ('accumulate_by.rs', 'AccumulateBy', 'struct', [], ['apply']),
+               ('dead_zone.rs', 'DeadZone', 'struct', ['DeadZoneKind'], ['dead_zone', 'apply'])]
+COND_FILES = [('condition_timer.rs', 'ConditionTimer', ['update', 'reset', 'duration']),
+              ('press.rs', 'Press', ['evaluate']), ('just_press.rs', 'JustPress', ['evaluate']),
+              ('release.rs', 'Release', ['evaluate']), ('hold.rs', 'Hold', ['evaluate']),
+              ('hold_and_release.rs', 'HoldAndRelease', ['evaluate']), ('tap.rs', 'Tap', ['evaluate']),
+              ('pulse.rs', 'Pulse', ['evaluate']), ('chord.rs', 'Chord', ['evaluate', 'kind']),
+              ('block_by.rs', 'BlockBy', ['evaluate', 'kind'])]
 
 
 def run(repo, outdir):
@@ -2295,7 +2723,7 @@ def run(repo, outdir):
     w.load_enum(av, 'ActionValueDim')
     w.load_enum(ci, 'ActionState')
     w.load_external_enums()
-    w.load_struct(tt, 'TriggerTracker')
+    w.load_struct(tt, 'TriggerTracker', o_tr)
     w.load_bitflags(ev, 'ActionEvents')
     w.load_impls(av, o_val, 'ActionValue')
     w.load_impls(ev, o_ev, 'ActionEvents')
@@ -2313,10 +2741,56 @@ def run(repo, outdir):
                 raise Unsupported(sf.rel, 0, "function `%s::%s` not found" % (ty, n))
             w.require_fn((ty, n), out, sf, 0)
     emit_loop_step(w, tt, o_tr, 'TriggerTracker', 'apply_conditions', 'apply_cond_src')
+    files = {'GlamTbl.v': GLAM_V, 'ValueSrc.v': o_val, 'EventsSrc.v': o_ev, 'TrackerSrc.v': o_tr}
+    # ---- second wave
+    # 1. ActionData::update
+    o_data = OutFile('Generated.DataSrc', ci.rel, ['Model.Num', 'Model.Value', 'Model.State'])
+    w.load_struct(ci, 'ActionData', o_data)
+    w.load_impls(ci, o_data, 'ActionData')
+    emit_setters(w, o_data, 'ActionData', ci)
+    for n in DATA_FNS:
+        if ('ActionData', n) not in w.fns:
+            raise Unsupported(ci.rel, 0, "function `ActionData::%s` not found" % n)
+        w.require_fn(('ActionData', n), o_data, ci, 0)
+    files['DataSrc.v'] = o_data
+    # 2. condition timer and the built-in conditions
+    cdir = 'src/input_context/input_condition/'
+    o_cond = OutFile('Generated.CondSrc', cdir + '*.rs',
+                     ['Model.Num', 'Model.Value', 'Model.State', 'Model.Tracker', 'Generated.GlamTbl'])
+    for (fname, sname, fns) in COND_FILES:
+        sf = SrcFile(repo, cdir + fname)
+        w.gen_struct(sf, sname, o_cond)
+        w.load_impls(sf, o_cond, sname)
+        emit_setters(w, o_cond, sname, sf)
+        for n in fns:
+            if (sname, n) not in w.fns:
+                raise Unsupported(sf.rel, 0, "function `%s::%s` not found" % (sname, n))
+            w.require_fn((sname, n), o_cond, sf, 0)
+    files['CondSrc.v'] = o_cond
+    # 3. modifiers
+    mdir = 'src/input_context/input_modifier/'
+    o_mod = OutFile('Generated.ModifSrc', mdir + '*.rs',
+                    ['Model.Num', 'Model.Value', 'Model.State', 'Model.Tracker', 'Model.Cond', 'Model.Modif',
+                     'Generated.GlamTbl', 'Generated.GlamTbl2'])
+    for (fname, sname, kind, extra, fns) in MODIF_FILES:
+        sf = SrcFile(repo, mdir + fname)
+        for en in extra:
+            w.load_enum(sf, en)
+            emit_enum_helpers(w, o_mod, en, sf)
+        if kind == 'struct':
+            w.gen_struct(sf, sname, o_mod)
+            emit_setters(w, o_mod, sname, sf)
+        w.load_impls(sf, o_mod, sname)
+        for n in fns:
+            if (sname, n) not in w.fns:
+                raise Unsupported(sf.rel, 0, "function `%s::%s` not found" % (sname, n))
+            w.require_fn((sname, n), o_mod, sf, 0)
+    files['GlamTbl2.v'] = GLAM2_V
+    files['ModifSrc.v'] = o_mod
     # all translated: write
     if not os.path.isdir(outdir):
         os.makedirs(outdir)
-    files = {'GlamTbl.v': GLAM_V, 'ValueSrc.v': o_val.text(), 'EventsSrc.v': o_ev.text(), 'TrackerSrc.v': o_tr.text()}
+    files = dict((n, (t if isinstance(t, str) else t.text())) for (n, t) in files.items())
     for name, text in files.items():
         with open(os.path.join(outdir, name), 'w') as f:
             f.write(text)
